@@ -472,7 +472,9 @@ class ttensor:
                 V.append(factor.transpose().dot(factor))
             Y = self.core.ttm(V)
             tmp = Y.innerprod(self.core)
-            return np.sqrt(tmp)
+            # tmp is a squared norm: rounding can leave it a hair below zero for a
+            # tensor that is (numerically) zero, as in ktensor.norm
+            return np.sqrt(np.abs(tmp))
         return self.full().norm()
 
     def permute(self, order: OneDArray) -> ttensor:
